@@ -92,6 +92,16 @@ def build(case):
         measure *= F(2) ** e
     req = {"lo": [str(x) for x in rlo], "hi": [str(x) for x in rhi], "span": span,
            "nd_req": len(rlo)}
+    emb = case.get("embed")
+    if emb and nd < 3:
+        # exact embedding into another coordinate line / plane: out-of-plane coordinates get
+        # dyadic offsets, then the axes are permuted
+        old = g.nodes.copy()
+        offs = list(emb["off"])
+        for d in range(nd, 3):
+            old[d] = offs[d - nd]
+        for i in range(3):
+            g.nodes[emb["perm"][i]] = old[i]
     return g, (measure if mode != "all" else None), req
 
 
@@ -111,19 +121,24 @@ class C19(Prop):
     id = "C19"
     props_file = "Props/C19.v"
     preamble = ("From Coq Require Import List ZArith QArith.\nImport ListNotations.\n"
-                "From PP Require Import Model.C19 Model.C19_3d.\nOpen Scope Q_scope.\n")
+                "From PP Require Import Model.C19 Model.C19_3d Model.C19_fb.\nOpen Scope Q_scope.\n")
     n_cases = (60, 500)
     design_ref = "DESIGN.md §5 C19"
     level_text = (
         "Coq theorems (exact rational arithmetic, all node coordinates, any number of faces per "
         "cell) over executable transcriptions of Grid._compute_geometry_1d, _compute_geometry_2d "
-        "(oriented branch) and _compute_geometry_3d (planar faces).  2-D: for every cell whose "
+        "(oriented branch AND the legacy convex-cell branch, with the general plane normal of "
+        "map_geometry.compute_normal) and _compute_geometry_3d (planar faces).  2-D: for every cell whose "
         "traversed faces pass the code's own orientation check (every node as often end as start: "
         "closed node loops, any orientation) the signed face normals sum to zero, the computed "
         "volume equals the shoelace area independent of the temporary centre, sum +-x_f.n_f = 2|K| "
         "and sum +-(x_f.n_f) x_f = 3|K| x_c; |n_f|^2 = area^2; volumes of the oriented branch are "
         "never negative and positive for cells star-shaped w.r.t. their temporary centre (incl. "
-        "convex cells).  1-D: the flip rule makes the normal outward for the cell it is computed "
+        "convex cells); on the legacy branch (orientation checks failed) volumes are never negative, "
+        "the flip rule makes sign*normal point away from the temporary centre, and for every cell "
+        "that is star-shaped w.r.t. its temporary centre the legacy volume and centre equal the "
+        "oriented ones of the correctly traversed loop (hence shoelace area, Gauss and centroid "
+        "identities).  1-D: the flip rule makes the normal outward for the cell it is computed "
         "from; for outward normals the identities hold with |x2-x1| > 0.  3-D: the face normal "
         "(sub-triangle sum around any centre) is the vector area of the node loop; for every "
         "watertight cell (each directed edge as often as its reverse) the signed face normals sum "
@@ -140,9 +155,12 @@ class C19(Prop):
         "grid covers the domain REQUESTED from the constructor.")
     level_note = (
         "NOT proved: the 3-D centroid identity; anything about twisted (non-planar) 3-D faces beyond "
-        "normals-sum-zero (|sub_normal| is irrational there; the model returns G3NonPlanar); the "
-        "legacy convex fallback branch of the 2-D code (only the decision to take it is modelled); "
-        "embedded 1-D/2-D grids; floating-point rounding; theorems are over Q (polynomial "
+        "normals-sum-zero (|sub_normal| is irrational there; the model returns G3NonPlanar); on the "
+        "legacy 2-D branch: non-star-shaped cells, and that the flip decisions of the two sides of "
+        "a face agree (true for convex cells; oracle only); the check-3/3 path (negative volume "
+        "with consistent local orientation) is modelled but not reached by the generator; "
+        "1-D/2-D grids embedded in tilted lines / planes (plane normal by normalisation needs sqrt; "
+        "axis-aligned embeddings are tied); floating-point rounding; theorems are over Q (polynomial "
         "identities, valid in any field, but stated for rationals).  2-D orientation check 2/3 "
         "(|S| < 1e-5*mean(area)^2) is modelled as S = 0.  In the 3-D model |sub_normal| is "
         "represented by |sub_normal.N|/|N| (exact for planar faces) and every vector operation is "
@@ -159,11 +177,13 @@ class C19(Prop):
             "StructuredTetrahedralGrid; 3-D boxes tapered to frusta (planar faces, no central symmetry); "
             "node perturbations by dyadic offsets (< 1/4 of the smallest "
             "spacing) of interior nodes (domain measure preserved) or of all nodes; 2-D stream with "
-            "reversed node order on some faces (orientation check fails -> fallback); non-trivial = "
+            "reversed node order on some faces (orientation check fails -> legacy branch); 40% of the "
+            "1-D/2-D grids embedded by an axis permutation with dyadic out-of-plane offsets (up to 256); non-trivial = "
             "perturbed grid or grid with > 1 cell; distinct by (case, output)")
     trusted = ["float -> exact rational conversion of the implementation's arrays; tolerance band "
                "1e-9*(1+|x|) evaluated inside Coq on dyadic, well-conditioned inputs"]
-    assumptions = ["1-D/2-D tie and theorems: non-embedded grids (x-axis / plane z = 0)",
+    assumptions = ["1-D/2-D theorems: coordinates in the grid's line / plane; the tie covers the x-axis / "
+                   "plane z = 0 and the axis-permuted, offset embeddings (general tilted embeddings: C20)",
                    "3-D tie and Gauss / volume theorems: planar faces whose sub-triangles are oriented "
                    "like the face (checked by Coq per cell: cell_hyps_b)",
                    "every 2-D face has exactly two nodes; cell_faces values are +-1"]
@@ -230,7 +250,7 @@ class C19(Prop):
             case["scale"] = 1.0 / 64
             case["pert"] = [rng.randint(-7, 7) for _ in range(24)]
             case["swap_faces"] = ([rng.randint(0, 10 ** 6) for _ in range(rng.randint(1, 2))]
-                                  if rng.random() < 0.12 else [])
+                                  if rng.random() < 0.25 else [])
             # exact rescaling by powers of two, 2^-20 .. 2^10: none / isotropic / anisotropic
             # (thin layers).  Aspect ratios stay <= 2^10: beyond ~1e5 the code's orientation
             # check 2/3 (|S| < 1e-5 mean(area)^2) sends a valid thin 2-D grid to the legacy
@@ -253,6 +273,11 @@ class C19(Prop):
             else:
                 e = rng.randint(-10, 10)
                 case["scale_exp"] = [e - rng.randint(0, 10) for _ in range(3)]
+            if nd < 3 and rng.random() < 0.4:
+                perm = [0, 1, 2]
+                rng.shuffle(perm)
+                case["embed"] = {"perm": perm,
+                                 "off": [rng.choice([0.0, 1.0, -0.5, 3.25, 256.0, -40.5]) for _ in range(2)]}
             yield case
 
     # ------------------------------------------------------------------ implementation
@@ -283,6 +308,8 @@ class C19(Prop):
         sk = "scale_" + ("unit" if not any(ex) else ("iso" if len(set(ex)) == 1 else "aniso")) + \
              ("_small" if min(ex) <= -11 else "")
         self.stats[sk] = self.stats.get(sk, 0) + 1
+        if case.get("embed") and g.dim < 3:
+            self.stats["embedded"] = self.stats.get("embedded", 0) + 1
         if case["kind"] == "cart":
             ck = "ctor_" + case.get("ctor", "none") + ("_scalar_nx" if case.get("scalar_nx") else "")
             self.stats[ck] = self.stats.get(ck, 0) + 1
@@ -308,8 +335,8 @@ class C19(Prop):
         dotp = lambda a, b: sum(x * y for x, y in zip(a, b))
         adot = lambda a, b: sum(abs(x * y) for x, y in zip(a, b))
 
-        def off(terms, rhs):
-            return abs(sum(terms) - rhs) > TOL * (sum(abs(t) for t in terms) + abs(rhs))
+        def off(terms, rhs, slack=0):
+            return abs(sum(terms) - rhs) > TOL * (sum(abs(t) for t in terms) + abs(rhs) + slack)
 
         # the grid covers the REQUESTED domain (checked on the nodes as constructed)
         req = res["req"]
@@ -320,6 +347,11 @@ class C19(Prop):
                             f"requested domain is [{float(F(req['lo'][d]))}, {float(F(req['hi'][d]))}]")
         else:
             return f"grid of dimension {dim} for a {req['nd_req']}-d request"
+        # positions are measured from a point of the grid's line / plane (node 0)
+        org = nodes[0]
+        fc = [[a - b for a, b in zip(p, org)] for p in fc]
+        cc = [[a - b for a, b in zip(p, org)] for p in cc]
+        nodes = [[a - b for a, b in zip(p, org)] for p in nodes]
         # planar faces?  (3-D hexahedra with perturbed nodes have non-planar faces; for those
         # only closedness, outwardness and volumes are demanded)
         planar_face = [True] * nf
@@ -368,7 +400,9 @@ class C19(Prop):
             for k in range(3):
                 cterms = [s * fc[f][j] * nr[f][j] * fc[f][k] for f, s in ents for j in range(3)]
                 rhs = (dim + 1) * vol[c] * cc[c][k]
-                if off(cterms, rhs):
+                # x_c[k] carries the rounding of the absolute position (|org[k]|), also when the
+                # grid does not extend in direction k at all
+                if off(cterms, rhs, (dim + 1) * vol[c] * abs(org[k])):
                     return (f"cell {c}: sum +-(x_f.n_f) x_f[{k}] = {float(sum(cterms))} but "
                             f"(dim+1)|K| x_c[{k}] = {float(rhs)}")
         return None
@@ -377,27 +411,45 @@ class C19(Prop):
     def coq_case(self, case, res):
         if res["dim"] == 3:
             return self._coq_case_3d(case, res)
-        if res["dim"] == 1:
-            nodes = clist([p[0] for p in res["nodes"]], qz)
+        # grids embedded in another coordinate line / plane: Coq gets the in-plane components;
+        # the out-of-plane components must be the constant offsets (positions) and 0 (normals)
+        emb = case.get("embed")
+        perm = emb["perm"] if emb else [0, 1, 2]
+        dim = res["dim"]
+        inpl, outpl = perm[:dim], perm[dim:]
+        for k in outpl:
+            w = res["nodes"][0][k]
+            if any(p[k] != w for p in res["nodes"]):
+                return "false"
+            tol = 1e-9 * (1 + abs(w))
+            if any(abs(p[k] - w) > tol for p in res["fc"]) or any(abs(p[k] - w) > tol for p in res["cc"]):
+                return "false"
+            if any(abs(n[k]) > 1e-9 * max(abs(x) for x in n) for n in res["fnrm"]):
+                return "false"
+        if dim == 1:
+            a = inpl[0]
+            nodes = clist([p[a] for p in res["nodes"]], qz)
             fn = clist(res["fn_indices"], lambda i: f"{i}%nat")
             cf = clist(res["cf"], lambda e: f"({e[0]}%nat,{e[1]}%nat,({e[2]})%Z)")
             h = f"{{| h_nodes := {nodes}; h_fn := {fn}; h_cf := {cf}; h_nc := {res['nc']}%nat |}}"
-            o = (f"{{| p_fc := {clist([p[0] for p in res['fc']], qz)}; "
-                 f"p_fn := {clist([p[0] for p in res['fnrm']], qz)}; "
-                 f"p_vol := {clist(res['vol'], qz)}; p_cc := {clist([p[0] for p in res['cc']], qz)} |}}")
+            o = (f"{{| p_fc := {clist([p[a] for p in res['fc']], qz)}; "
+                 f"p_fn := {clist([p[a] for p in res['fnrm']], qz)}; "
+                 f"p_vol := {clist(res['vol'], qz)}; p_cc := {clist([p[a] for p in res['cc']], qz)} |}}")
             return f"agree1 {h} {o}"
-        nodes = clist(res["nodes"], qpt)
+        a, b = inpl
+        pl = lambda p: (p[a], p[b])
+        nodes = clist([pl(p) for p in res["nodes"]], qpt)
         ip, ix = res["fn_indptr"], res["fn_indices"]
         assert all(ip[f + 1] - ip[f] == 2 for f in range(res["nf"]))
         faces = clist(range(res["nf"]), lambda f: f"({ix[ip[f]]}%nat,{ix[ip[f] + 1]}%nat)")
         cf = clist(res["cf"], lambda e: f"({e[0]}%nat,{e[1]}%nat,({e[2]})%Z)")
         g = f"{{| g_nodes := {nodes}; g_faces := {faces}; g_cf := {cf}; g_nc := {res['nc']}%nat |}}"
-        if res["fallback"]:
-            return f"agree2 {g} None"
-        o = (f"{{| o_area2 := {clist([F(a) ** 2 for a in res['areas']], qz)}; "
-             f"o_fc := {clist(res['fc'], qpt)}; o_fn := {clist(res['fnrm'], qpt)}; "
-             f"o_vol := {clist(res['vol'], qz)}; o_cc := {clist(res['cc'], qpt)} |}}")
-        return f"agree2 {g} (Some {o})"
+        o = (f"{{| o_area2 := {clist([F(x) ** 2 for x in res['areas']], qz)}; "
+             f"o_fc := {clist([pl(p) for p in res['fc']], qpt)}; "
+             f"o_fn := {clist([pl(p) for p in res['fnrm']], qpt)}; "
+             f"o_vol := {clist(res['vol'], qz)}; o_cc := {clist([pl(p) for p in res['cc']], qpt)} |}}")
+        # branch decision and every output array, on the oriented and on the legacy path
+        return f"agree2f {g} {'true' if res['fallback'] else 'false'} {o}"
 
     def _coq_case_3d(self, case, res):
         # planar faces only (the model's domain): boxes, frusta, tetrahedra (also perturbed);
